@@ -5,7 +5,7 @@
 set -u
 V=/verif
 REPO=${VERIF_REPO:-/repo}
-B=$V/build
+B=${VERIF_BUILD:-$V/build}
 mkdir -p "$B" "$V/evidence" "$V/work"
 export STIR_CONFIG_DIR=$REPO/src/config
 
